@@ -189,6 +189,40 @@ def _mentions(v, w):
     return has_subterm(v, w)
 
 
+def prefix_word_problems(ts):
+    """a word is classified the same way whatever stands in front of it: `<operator character> word` gives the operator's token(s)
+    followed by what the word gives alone, with no further test of the word's text (a sign is never folded into the literal).
+    Returns [(problem kind, message)], or None when the interpretation ran out of budget."""
+    w = SYM('w')
+    lit_w = ts.P('Literal', 'w')
+    out = []
+    try:
+        alone = {kinds_of(p[0]) for p in ts.run((lit_w,)) if p[0] != ('diverge',)}
+        for k in ts.op_kinds + ['Whitespace']:
+            seq = (ts.P(k), lit_w)
+            first = {kinds_of(p[0]) for p in ts.run((ts.P(k),)) if p[0] != ('diverge',)}
+            want = {a_ + b_ for a_ in first if a_ is not None for b_ in alone if b_ is not None}
+            got = set()
+            for ret, eff in ts.run(seq):
+                if ret == ('diverge',):
+                    continue
+                ks = kinds_of(ret)
+                if ks is None:
+                    # an error: only a lone `&` / `|` in front of the word may fail
+                    if None not in first:
+                        out.append(('consume', '%s w -> %s' % (k, fmt(ret)[:60])))
+                    continue
+                got.add(ks)
+                att, extra = word_attempts(eff, w)
+                if extra or any(k_ == 'join' for k_, _s, _t in att) or any(not t_[2] or _bare(t_[2][0]) != w for k_, _s, t_ in att if k_ in ('int', 'float', 'bool') and 'from_hex_str' not in t_[1]):
+                    out.append(('extra', '%s w: %s' % (k, (extra or [fmt(t_)[:70] for _k, _s, t_ in att])[:2])))
+            if want and got != want:
+                out.append(('consume', '%s w -> %s (expected %s)' % (k, sorted(map(str, got))[:3], sorted(map(str, want))[:3])))
+    except Budget:
+        return None
+    return out
+
+
 def check_words(ctx, prog):
     """R6.3 (classification order of a word, first success decides, no extra gate on the word's text, payloads are the parse results of
     the same text), R6.5 for words (the scientific-notation join is tried exactly after `-`/`+` followed by another word, and consumes
@@ -294,6 +328,13 @@ def check_words(ctx, prog):
                     note('payload', '%s: the join parses %s, expected the word, `%s` and the next partial token' % (sname, [fmt(text(p_))[:30] for p_ in pieces], ts.psym.get(S[0][3])))
             if not good:
                 note('payload', '%s: %s carries %s' % (sname, kind, fmt(pv)[:80] if pv else None))
+    pp = prefix_word_problems(ts)
+    if pp is None:
+        ctx.unrecognised('R6.5', 'partial_tokens_to_tokens', 'budget', 'too complex on an operator character followed by a word', span=f.span)
+        return None
+    for key_, msg_ in pp:
+        note(key_, msg_)
+    n_seq += len(ts.op_kinds) + 1
     ctx.counters['tokenizer_paths'] = n_paths
     ctx.floor('R6.3', 'literal_paths', n_paths, 50)
     ctx.check(not problems['order'], 'R6.3', 'literal-path[classification]', 'classification-order', 'a word is tried as integer, float, boolean, (three-token float), and is an identifier only when all fail; the first success decides (deviations: %s)' % problems['order'], span=f.span)
@@ -333,6 +374,15 @@ def check_whitespace(ctx, prog, rule='R7.3'):
                     bad.append('%s %s -> %s' % (ts.psym[a], ts.psym[b], [fmt(r)[:70] for r in got]))
             elif not (len(got) == 1 and is_adt(got[0], 'result::Result', 'Err')) and len(bad) < 5:
                 bad.append('%s %s -> %s (expected an unmatched-token error)' % (ts.psym[a], ts.psym[b], [fmt(r)[:70] for r in got]))
+    # any amount of whitespace is the same as one: doubling the separator changes nothing, neither the tokens nor - on ill-formed text -
+    # the error and what it carries
+    for a in ts.op_kinds:
+        for b in list(ts.op_kinds) + ['Literal', None]:
+            n += 1
+            tail = [] if b is None else [ts.P('Literal', 'x') if b == 'Literal' else ts.P(b)]
+            once, twice = rets([ts.P(a), ws] + tail), rets([ts.P(a), ws, ws] + tail)
+            if sorted(map(fmt, once)) != sorted(map(fmt, twice)) and len(bad) < 5:
+                bad.append('`%s %s` -> %s but with two separators -> %s' % (ts.psym[a], 'x' if b == 'Literal' else (ts.psym[b] if b else ''), [fmt(r)[:70] for r in once][:2], [fmt(r)[:70] for r in twice][:2]))
     # two words separated by whitespace stay two tokens
     two = {kinds_of(r) for r in rets([ts.P('Literal', 'w'), ws, ts.P('Literal', 'x')])}
     one = {kinds_of(r) for r in rets([ts.P('Literal', 'w')])}
